@@ -8,6 +8,7 @@ start-up / queueing code of the stateless tracker, the crdt consensus component 
 only after re-reading the changed function against the model.
 Round 8b (/repo 076a82e): added the tracker's `pin` / `unpin` / `Recover` / `recoverWithPinInfo`, the informers' `SetClient` / `Shutdown` / `GetMetric`
 and the checker's `NewChecker` / `alert` / `Alerts` / `Watch`, read against `Model/C18SyncProgs2.lean` (`progT…`, `progI…`, `progW…`).
+Round 8c (/repo 3277283): `Cluster.Shutdown` re-read against `cShutdown` (the new peerset test is one more way into the free-choice branch pc 7 → 8: at most one locked write of `c.removed` per call, the local `removed` excludes the leave branch afterwards).
 Last snapshot of the older entries: /repo 87856f0 (Cluster ready / Shutdown / watchPeers re-read against `progC…` of `Model/C18SyncProgs.lean`; `NewCluster` added).
 -/
 namespace CV.C18.Expected
@@ -744,6 +745,23 @@ def cluster_Cluster_Shutdown : List String := [
   "}",
   "if ready {",
   "c.peerManager.SavePeerstoreForPeers(c.host.Peerstore().Peers())",
+  "}",
+  "if c.consensus != nil && ready && !removed {",
+  "if peers, err := c.consensus.Peers(ctx); err == nil {",
+  "hasMe := false",
+  "for _, p := range peers {",
+  "if p == c.id {",
+  "hasMe = true",
+  "break",
+  "}",
+  "}",
+  "if !hasMe {",
+  "removed = true",
+  "c.stateLock.Lock()",
+  "c.removed = true",
+  "c.stateLock.Unlock()",
+  "}",
+  "}",
   "}",
   "if c.consensus != nil && c.config.LeaveOnShutdown && ready && !removed {",
   "_, err := c.consensus.Peers(ctx)",
